@@ -52,7 +52,7 @@ def run(ctx):
     sel = R.sample(corp, 300 if tier == "quick" else len(corp))
     # strings the cleaning steps look at closely (dotted d.m.y. forms, 'on:', ', в', 'г.', a dot before a space) are always in
     import re
-    close = [s for s in corp if re.search(r"\d\.\s?\d+\.\s?\d+\.|on:|,\sв|г\.|\.\s", s)]
+    close = [s for s in corp if re.search(r"\d\.\s?\d+\.\s?\d+\.|on:|on$|,\sв|г\.|\.\s", s)]
     sel = sel + [s for s in R.sample(close, min(len(close), 80)) if s not in sel]
     det = pmap(lib_gdd, [{"s": s, "langs": LK, "settings": {"RELATIVE_BASE": BASE, "TIMEZONE": "UTC"}} for s in sel])
     items = [(s, d["r"].rsplit("|", 1)[1]) for s, d in zip(sel, det) if d.get("r")]
